@@ -47,6 +47,7 @@ struct Case {
     t0: Instant,
     keys: Vec<Key>,
     fired: Rc<RefCell<Vec<u64>>>,
+    last_ne: Option<i64>,
 }
 
 impl Case {
@@ -120,9 +121,17 @@ impl Case {
             ),
             "actmax" => (format!("B {}", s.timer_max_active(kmax) as u8), Key::None),
             "actmin" => (format!("B {}", s.timer_min_active(kmin) as u8), Key::None),
-            "run" => {
+            "run" | "runne" => {
+                let at = if ws[0] == "run" {
+                    num(1)
+                } else {
+                    match self.last_ne {
+                        Some(t) => t + num(1),
+                        None => num(2),
+                    }
+                };
                 self.fired.borrow_mut().clear();
-                s.run(inst(t0, num(1)), false);
+                s.run(inst(t0, at), false);
                 let mut out = String::from("F");
                 for id in self.fired.borrow().iter() {
                     out.push_str(&format!(" {}", id));
@@ -130,8 +139,14 @@ impl Case {
                 (out, Key::None)
             }
             "ne" => match s.next_expiry() {
-                None => ("E none".to_string(), Key::None),
-                Some(t) => (format!("E {}", ns_since(t0, t)), Key::None),
+                None => {
+                    self.last_ne = None;
+                    ("E none".to_string(), Key::None)
+                }
+                Some(t) => {
+                    self.last_ne = Some(ns_since(t0, t) as i64);
+                    (format!("E {}", ns_since(t0, t)), Key::None)
+                }
             },
             "nw" => match s.next_wait(inst(t0, num(1))) {
                 None => ("E none".to_string(), Key::None),
@@ -189,6 +204,7 @@ fn main() {
                     t0: base,
                     keys: Vec::new(),
                     fired: Rc::new(RefCell::new(Vec::new())),
+                    last_ne: None,
                 });
             }
             "end" => {
